@@ -66,7 +66,11 @@ def escape(ident, quote_char, should_quote):
     return ".".join(esc(f) for f in split_field(ident))
 
 
-def Operator(_op, ordered=True):
+def Operator(_op, ordered=True, chains=True):
+    """
+    :param ordered: OPERANDS CAN NOT BE REGROUPED (a - b - c IS NOT a - (b - c))
+    :param chains: a op b op c IS READ AS (a op b) op c; WHEN False THE LEFT OPERAND IS ISOLATED TOO
+    """
     op_prec = precedence[binary_ops[_op]]
     op = " {0} ".format(_op).replace("_", " ").upper()
 
@@ -79,7 +83,8 @@ def Operator(_op, ordered=True):
 
         operands = listwrap(json)
         if ordered and len(operands) == 2:
-            acc = [self.dispatch(operands[0], op_prec + 0.5), self.dispatch(operands[1], op_prec - 0.5)]
+            left_prec = op_prec + 0.5 if chains else op_prec - 0.5
+            acc = [self.dispatch(operands[0], left_prec), self.dispatch(operands[1], op_prec - 0.5)]
         else:
             acc = [self.dispatch(v, op_prec) for v in operands]
 
@@ -155,12 +160,12 @@ class Formatter:
     _and = Operator("and", ordered=False)
     _binary_and = Operator("&", ordered=False)
     _binary_or = Operator("|", ordered=False)
-    _like = Operator("like")
-    _not_like = Operator("not like")
-    _rlike = Operator("rlike")
-    _not_rlike = Operator("not rlike")
-    _ilike = Operator("ilike")
-    _not_ilike = Operator("not ilike")
+    _like = Operator("like", chains=False)
+    _not_like = Operator("not like", chains=False)
+    _rlike = Operator("rlike", chains=False)
+    _not_rlike = Operator("not rlike", chains=False)
+    _ilike = Operator("ilike", chains=False)
+    _not_ilike = Operator("not ilike", chains=False)
     _union = Operator("union", ordered=False)
     _union_all = Operator("union all", ordered=False)
     _intersect = Operator("intersect", ordered=False)
